@@ -4,7 +4,7 @@ import vlib, apitrace
 def run(res, a):
     if a.replay:
         return apitrace.replay(res, "C01", a.replay)
-    vlib.proof_stage(res, "C01")
+    vlib.proof_stage(res, "C01", files=["C01", "C01span"])
     big = a.tier == "thorough"
     k = 4 if big else 1
     plan = [("boundary", 10 * k, 400), ("fillfree", 10 * k, 600), ("span", 8 * k, 350), ("aligned", 8 * k, 350), ("realloc", 6 * k, 350),
